@@ -359,7 +359,7 @@ def install_contracts():
     C = harness.Chart
     for name in ("__getitem__", "notes_per_second"):
         orig = getattr(C, name)
-        wrapped = icontract.snapshot(_snap_state, name="state")(icontract.ensure(_post_unchanged, error=contracts.ContractBreach)(orig))
+        wrapped = icontract.snapshot(_snap_state, name="state", enabled=True)(icontract.ensure(_post_unchanged, error=contracts.ContractBreach, enabled=True)(orig))
         setattr(C, name, wrapped)
     contracts.installed["c19"] = True
 
